@@ -14,6 +14,13 @@ CHECKS = {
                      "small alphabets of keys/strings/patterns, nesting depth <= 5."),
 }
 
+CHECKS["C06"] = dict(level="model_checking", design="DESIGN.md §6 C06",
+    technique="TLA+ total-outcome clause (Trace_Total) checked by TLC on events recorded from the real entry points over a degenerate-schema universe x carriers x option combinations, with watchdog",
+    text="Each event lists the outcome of up to 60 runs (2 entry points x float64/json.Number x 16 option combinations) of one (schema, instance) pair; TLC checks that every outcome is a "
+         "verdict and that the documented panic occurs only for schemas with an unresolvable reference (Resolvable is computed in the spec from the schema's reference structure). "
+         "The spec's contribution is this post-condition; detection rests on the degenerate universe.",
+    note="Termination is a 5 s watchdog. Schemas that do not decode are skipped. The reference-structure encoder is trusted.")
+
 NOT_YET = {}
 
 
